@@ -241,6 +241,7 @@ def shards(tier):
         out.append(("F", n))
     for n in (64, 65, 70):
         out.append(("BIG", n))
+    out.append(("longclash",))
     return out
 
 
@@ -299,6 +300,21 @@ def run_shard(shard):
             res["transitions"] += n
             res["distinct"].add((r, tuple(u.short for u in units), bus.round))
         sample(res, {"slice": "A", "config": cfg, "alphabet": [hex(a) for a in alphabet], "rounds": rounds})
+    elif k == "longclash":
+        # "clashing units eventually draw different values": streaks of 3, 40, 150 and 300 clash rounds before they do
+        for streak in (3, 40, 150, 300):
+            for pre, rd, dry in (([None, None], False, False), ([5, None, 5], True, False), ([None, None], False, True), ([None, 1, None], False, False)):
+                n = len(pre)
+                script = [[7] * n for _ in range(streak)] + [[3 + i for i in range(n)]]
+                cfg = dict(pre=list(pre), avail=[3, 4, 9], readdress=rd, dry_run=dry, pattern=f"clash-x{streak}")
+                units, bus, kind, val, cnt = run_one(cfg, None, None, streak + 3, script)
+                r = judge(res, cfg, None, units, kind, val, cnt, bus)
+                res["evaluations"] += 1
+                res["states"] += 1
+                res["traces"] += 1
+                res["transitions"] += cnt
+                res["distinct"].add((r, "longclash", streak))
+        sample(res, {"clash_streaks": [3, 40, 150, 300]})
     elif k == "B":
         _, n, rd, dry = shard
         for pre in itertools.combinations_with_replacement(PRE, n):
